@@ -24,43 +24,37 @@ theorem inv_init_none (g : Grid) (pid : Nat → Int) (props : List (String × (N
     (hlow : ∀ p, p < g.size → -1 ≤ pid p) : Inv (init g pid none props mask) :=
   inv_init_none' g pid props mask hlow
 
-/-- … with any caller phase list (fewer, as many or more phases than ids, any ids) that has pairwise
-distinct ids — every `PhaseList` has, see `constructor_forms_sorted` — and no phase called "not_indexed".
-This is the code as it is, hence `_partial`: the full statement (any caller list in which -1 and only -1 is
-"not_indexed") FAILS for the code, see `init_relinks_not_indexed`, and holds for the repaired constructor,
-see `inv_initFixed`. -/
-theorem inv_init_some_partial (g : Grid) (pid : Nat → Int) (pl : PhaseList)
-    (props : List (String × (Nat → Int))) (mask : Mask) (hlow : ∀ p, p < g.size → -1 ≤ pid p)
-    (hnd : (PhaseList.ids pl).Nodup) (hnames : ∀ e ∈ pl, e.2.name ≠ "not_indexed") :
-    Inv (init g pid (some pl) props mask) :=
-  inv_init_some' g pid pl props mask hlow hnd hnames
-
-/-- proved counter-example (finding C12-constructor-relinks-not-indexed): the caller's list
-{-1: not_indexed, 0: a, 1: b} and data ids 0, 1, 2 give {0: not_indexed, 1: a, 2: b} -/
-theorem init_relinks_not_indexed :
-    (init ⟨1, 3⟩ (fun p => p) (some witnessCallerList) [] (fun _ => true)).phases
-      = [(0, Phase.notIndexed), (1, ⟨"a", some "m-3m", 1⟩), (2, ⟨"b", some "432", 2⟩)] ∧
-    ¬ Inv (init ⟨1, 3⟩ (fun p => p) (some witnessCallerList) [] (fun _ => true)) := by
-  have h : (init ⟨1, 3⟩ (fun p => p) (some witnessCallerList) [] (fun _ => true)).phases
-      = [(0, Phase.notIndexed), (1, ⟨"a", some "m-3m", 1⟩), (2, ⟨"b", some "432", 2⟩)] := by decide
-  refine ⟨h, fun hinv => ?_⟩
-  have := (hinv.pl.notIdx (0, Phase.notIndexed) (by rw [h]; simp)).2 rfl
-  simp at this
-
-/-- the constructor with the proposed repair (drop the caller's -1 entry first) establishes the invariant for
-every caller list with distinct ids in which only id -1 may be called "not_indexed" -/
-theorem inv_initFixed (g : Grid) (pid : Nat → Int) (pl : PhaseList) (props : List (String × (Nat → Int)))
+/-- … with ANY caller phase list (fewer, as many or more phases than ids, any ids, with or without a
+`not_indexed` entry) that has pairwise distinct ids — every `PhaseList` has, see `constructor_forms_sorted` —
+and in which only id -1 may be called "not_indexed".  Full strength for the constructor as it is now
+(`fix:` 1077dd8). -/
+theorem inv_init_some (g : Grid) (pid : Nat → Int) (pl : PhaseList) (props : List (String × (Nat → Int)))
     (mask : Mask) (hlow : ∀ p, p < g.size → -1 ≤ pid p) (hnd : (PhaseList.ids pl).Nodup)
     (hwf : ∀ e ∈ pl, e.2.name = "not_indexed" → e.1 = -1) :
-    Inv (initFixed g pid (some pl) props mask) := by
-  unfold initFixed
-  simp only [Option.map_some]
-  apply inv_init_some' g pid _ props mask hlow
-  · exact hnd.sublist ((List.filter_sublist).map _)
-  · intro e he hname
-    have := List.mem_filter.1 he
-    have hid := hwf e this.1 hname
-    simp [hid] at this
+    Inv (init g pid (some pl) props mask) :=
+  inv_init_some' g pid pl props mask hlow hnd hwf
+
+/-- the defect repaired by `fix:` 1077dd8, pinned on the pre-fix constructor `initOld`: it establishes the
+invariant only for caller lists without any phase called "not_indexed" … -/
+theorem initOld_inv_partial (g : Grid) (pid : Nat → Int) (pl : PhaseList)
+    (props : List (String × (Nat → Int))) (mask : Mask) (hlow : ∀ p, p < g.size → -1 ≤ pid p)
+    (hnd : (PhaseList.ids pl).Nodup) (hnames : ∀ e ∈ pl, e.2.name ≠ "not_indexed") :
+    Inv (initOld g pid (some pl) props mask) :=
+  inv_initOld_some' g pid pl props mask hlow hnd hnames
+
+/-- … proved counter-example: the caller's list {-1: not_indexed, 0: a, 1: b} and data ids 0, 1, 2 gave
+{0: not_indexed, 1: a, 2: b}; the constructor as it is now gives {0: a, 1: b, 2: default} -/
+theorem initOld_relinks_not_indexed :
+    (initOld ⟨1, 3⟩ (fun p => p) (some witnessCallerList) [] (fun _ => true)).phases
+      = [(0, Phase.notIndexed), (1, ⟨"a", some "m-3m", 1⟩), (2, ⟨"b", some "432", 2⟩)] ∧
+    ¬ Inv (initOld ⟨1, 3⟩ (fun p => p) (some witnessCallerList) [] (fun _ => true)) ∧
+    (init ⟨1, 3⟩ (fun p => p) (some witnessCallerList) [] (fun _ => true)).phases
+      = [(0, ⟨"a", some "m-3m", 1⟩), (1, ⟨"b", some "432", 2⟩), (2, Phase.dflt)] := by
+  have h : (initOld ⟨1, 3⟩ (fun p => p) (some witnessCallerList) [] (fun _ => true)).phases
+      = [(0, Phase.notIndexed), (1, ⟨"a", some "m-3m", 1⟩), (2, ⟨"b", some "432", 2⟩)] := by decide
+  refine ⟨h, fun hinv => ?_, by decide⟩
+  have := (hinv.pl.notIdx (0, Phase.notIndexed) (by rw [h]; simp)).2 rfl
+  simp at this
 
 /-- every constructor form of `PhaseList` (list, dict, single phase, keyword lists with padding) yields
 strictly ascending — hence unique — ids -/
@@ -115,32 +109,32 @@ theorem selection_ids_in_list (s : Sys) (h : Inv s) (m : Mask) :
 
 /-! ### phases in data -/
 
-/-- with the proposed repair `phases_in_data` returns exactly the entries whose id is present in the
-selection, and their ids are exactly the ids present (ascending, once each) -/
-theorem phasesInData_exact_fixed (s : Sys) (h : Inv s) (m : Mask) (hne : ids s.n m ≠ []) :
-    phasesInDataFixed s m = .ok (phasesInDataSpec s m) ∧
+/-- **`phases_in_data` holds exactly the ids present** (the code as it is now, `fix:` bb01d48): for every
+non-empty selection it returns exactly the entries whose id is held by a point of the selection, and their
+ids are exactly the ids present (ascending, once each) -/
+theorem phasesInData_exact (s : Sys) (h : Inv s) (m : Mask) (hne : ids s.n m ≠ []) :
+    phasesInData s m = .ok (phasesInDataSpec s m) ∧
       PhaseList.ids (phasesInDataSpec s m) = uniqueSorted ((ids s.n m).map s.phaseId) :=
-  ⟨phasesInDataFixed_eq h hne, ids_spec h m⟩
+  ⟨phasesInData_eq h hne, ids_spec h m⟩
 
-/-- the code as it is: the same, *provided* names identify phases (`_partial`: without that proviso the
-statement FAILS, see `phasesInData_wrong_id`) -/
-theorem phasesInData_exact_partial (s : Sys) (h : Inv s) (m : Mask) (hne : ids s.n m ≠ [])
+/-- the defect repaired by `fix:` bb01d48, pinned on the pre-fix `phasesInDataOld` (id looked up again by
+name): exact only when names identify phases … -/
+theorem phasesInDataOld_exact_partial (s : Sys) (h : Inv s) (m : Mask) (hne : ids s.n m ≠ [])
     (hnames : ∀ e ∈ s.phases, ∀ f ∈ s.phases, e.2.name = f.2.name → e = f) :
-    phasesInData s m = .ok (phasesInDataSpec s m) :=
-  phasesInData_eq_of_names h hne hnames
+    phasesInDataOld s m = .ok (phasesInDataSpec s m) :=
+  phasesInDataOld_eq_of_names h hne hnames
 
-/-- proved counter-example (finding C12-phases-in-data-id-by-name): two unnamed phases 0 and 1, the
-selection holds only id 1, `phases_in_data` lists id 0 -/
-theorem phasesInData_wrong_id :
+/-- … proved counter-example: two unnamed phases 0 and 1, the selection holds only id 1; the old code listed
+id 0, the code as it is now lists id 1 -/
+theorem phasesInDataOld_wrong_id :
     Inv witnessTwoUnnamed ∧
     (ids 3 (fun p => p != 0)).map witnessTwoUnnamed.phaseId = [1, 1] ∧
-    phasesInData witnessTwoUnnamed (fun p => p != 0) = .ok [(0, Phase.dflt)] ∧
-    phasesInDataFixed witnessTwoUnnamed (fun p => p != 0) = .ok [(1, Phase.dflt)] := by
+    phasesInDataOld witnessTwoUnnamed (fun p => p != 0) = .ok [(0, Phase.dflt)] ∧
+    phasesInData witnessTwoUnnamed (fun p => p != 0) = .ok [(1, Phase.dflt)] := by
   refine ⟨inv_init_none' _ _ _ _ (by intro p _; by_cases h : p = 0 <;> simp [h]), ?_, ?_, ?_⟩ <;> decide
 
 /-- **orientations**: whenever `orientations` is defined for a selection, all its points have the same phase
-id and the symmetry is the point group of the phase stored under that id (also for the code as it is: the
-id reported by `phases_in_data` may be wrong, the phase object is not) -/
+id and the symmetry is the point group of the phase stored under that id -/
 theorem single_phase_orientations_symmetry (s : Sys) (h : Inv s) (m : Mask) (sy : Option String)
     (ho : orientationsSym s m = .ok sy) :
     ∃ i p, (i, p) ∈ s.phases ∧ p.sym = sy ∧ ∀ q ∈ ids s.n m, s.phaseId q = i :=
